@@ -149,11 +149,23 @@ def run(prop, sub, tier, seed, rule, required, assumptions, exhaustive_note):
     p = subprocess.run([vc, sub, "--tier", tier, "--seed", str(seed), "--threads", str(core.NPROC)],
                        stdout=subprocess.PIPE, stderr=subprocess.PIPE)
     out = _parse_outcome(p.stdout)
-    if p.returncode != 0 or out is None:
+    native_nontrivial = 0
+    if p.returncode in (-6, -11, -7, -4) and out is None:
+        # the uninstrumented harness was killed by SIGABRT / SIGSEGV / SIGBUS / SIGILL: the harness itself is safe Rust, so this is
+        # memory corruption in the code under test (glibc's "free(): invalid pointer", a wild write); the sanitizer phases below
+        # say where. (SIGKILL - the OOM killer - stays a machinery error.)
+        run_.stats["native.killed_by_signal"] += 1
+        run_.violations.append({"signature": "native-harness-killed:signal-%d" % -p.returncode,
+                                "what": "[native] the %s workload killed the uninstrumented harness with signal %d: %s"
+                                % (sub, -p.returncode, p.stderr[-300:].decode(errors="replace").strip()),
+                                "replay": {"kind": "codec", "phase": "native", "how_to": "%s %s --tier %s --seed %d --threads %d" % (vc, sub, tier, seed, core.NPROC),
+                                           "stderr": p.stderr[-2000:].decode(errors="replace")}})
+    elif p.returncode != 0 or out is None:
         run_.errors.append("native vc %s failed: rc=%s stderr=%s" % (sub, p.returncode, p.stderr[-800:].decode(errors="replace")))
         return core.finish(run_, "exploration", rule, required, assumptions)
-    absorb("native", out, vc)
-    native_nontrivial = out["nontrivial"]
+    else:
+        absorb("native", out, vc)
+        native_nontrivial = out["nontrivial"]
     phases["native"]["wall_s"] = round(time.time() - t0, 1)
 
     # ---- AddressSanitizer (mid-size workload)
